@@ -451,6 +451,56 @@ def generator_unit(chk, tier):
     return len(pairs)
 
 
+def first_run_on_an_old_format_index(chk):
+    """"strictly greater than every recorded version of the project" -- also for the FIRST command that opens an index
+    written by Conductor <= 0.4 (format 1, upgraded in place) whose newest version is ahead of this machine's clock (recorded
+    on, or restored from, a machine whose clock was ahead; a clock stepped back).  The execution's version must be greater than
+    the recorded one, and `cond where` must then report the new directory.  Control: the same on a format-2 index.  (Seed
+    C08/m: the MAX(timestamp) seed of the generator was skipped on the branch right after the upgrade.)"""
+    import sqlite3
+    import time
+    import implrun
+
+    for fmt in (2, 1):
+        root = implrun.make_project({"COND": 'run_experiment(name="exp", run="echo new > $COND_OUT/r")\nrun_experiment(name="other", run="echo o > $COND_OUT/r")\n'})
+        out = os.path.join(root, "cond-out")
+        os.makedirs(out)
+        future = int(time.time()) + 100000
+        olds = [("//:exp", future - 5), ("//:exp", future), ("//:other", future + 7)]
+        conn = sqlite3.connect(os.path.join(out, "version_index.sqlite"))
+        if fmt == 1:
+            conn.execute("CREATE TABLE version_index (task_identifier TEXT NOT NULL, timestamp INTEGER NOT NULL, git_commit TEXT NOT NULL, PRIMARY KEY (task_identifier, timestamp))")
+            conn.executemany("INSERT INTO version_index VALUES (?, ?, 'unknown')", olds)
+        else:
+            conn.execute("CREATE TABLE version_index (task_identifier TEXT NOT NULL, timestamp INTEGER NOT NULL, git_commit_hash TEXT, has_uncommitted_changes INTEGER NOT NULL, PRIMARY KEY (task_identifier, timestamp))")
+            conn.executemany("INSERT INTO version_index VALUES (?, ?, NULL, 0)", olds)
+        conn.execute("PRAGMA user_version = %d" % fmt)
+        conn.commit()
+        conn.close()
+        for t, ts in olds:
+            d = os.path.join(out, "%s.task.%d" % (t[3:], ts))
+            os.makedirs(d)
+            open(os.path.join(d, "r"), "w").write("old\n")
+        r = implrun.run_cond(["run", "//:exp", "--again"], root)
+        w = implrun.run_cond(["where", "//:exp"], root)
+        chk.coverage["evaluations"] = chk.coverage.get("evaluations", 0) + 1
+        chk.count("old-format", "format %d, newest version ahead of the clock" % fmt)
+        rows = sorted((x[0], x[1]) for x in implrun.index_rows(root))
+        new = [k for k in rows if k not in olds]
+        msg = None
+        if r.code != 0 or len(new) != 1:
+            msg = "`cond run //:exp --again` exited %s; recorded versions %r" % (r.code, rows)
+        elif new[0][1] <= max(ts for _t, ts in olds):
+            msg = "the execution was given version %d although version %d is already recorded in the project" % (new[0][1], max(ts for _t, ts in olds))
+        elif implrun.strip_ansi(w.out).strip() != os.path.join(out, "exp.task.%d" % new[0][1]):
+            msg = "`cond where //:exp` reports %r after the run, the new version is exp.task.%d" % (implrun.strip_ansi(w.out).strip(), new[0][1])
+        if msg:
+            chk.violation("impl-violation", "first command on a format-%d index whose newest version is ahead of the clock: %s" % (fmt, msg),
+                          {"input": {"part": "old-format-future", "format": fmt, "recorded": olds}, "impl_observation": {"rows": rows, "where": w.out[-200:]}, "oracle_verdict": msg}, match_key={"part": "old-format-future"}, size=3)
+        else:
+            chk.coverage["traces_validated_against_impl"] = chk.coverage.get("traces_validated_against_impl", 0) + 1
+
+
 def run(tier, seed, replay=None):
     chk = Check("C08", tier, seed)
     chk.build_proofs(["Model/Store.vo", "Lib/Cmp.vo", "Refuted/StoreOld.vo", "Refuted/StagingOld.vo"])
@@ -493,6 +543,7 @@ def run(tier, seed, replay=None):
     import c13 as _c13  # pylint: disable=import-outside-toplevel
 
     _c13.recorded_versions_are_not_explored(chk)   # gc never reaches into a recorded version
+    first_run_on_an_old_format_index(chk)
     au.equal_timestamps_across_tasks(chk, "C08")   # gc / archive / restore keep versions of different tasks that share a timestamp
     import c06  # pylint: disable=import-outside-toplevel
 
